@@ -214,7 +214,7 @@ func s1ExpandedRegression(c *vkit.Collector) {
 				c.Violate(s1ExpandedKind(a), "Expanded by a non-negative margin loses a point",
 					map[string]interface{}{"type": "s1", "a": []float64{a.Lo, a.Hi}, "margin": mg, "p": p, "expanded": []float64{ex.Lo, ex.Hi},
 						"bits": []string{s1Bits(a), fmt.Sprintf("%x", w[2]), fmt.Sprintf("%x", math.Float64bits(p))},
-						"go": fmt.Sprintf("i := s1.Interval{Lo: math.Float64frombits(%#x), Hi: math.Float64frombits(%#x)}; i.Expanded(math.Float64frombits(%#x)).Contains(i.Lo) == false", w[0], w[1], w[2])})
+						"go":   fmt.Sprintf("i := s1.Interval{Lo: math.Float64frombits(%#x), Hi: math.Float64frombits(%#x)}; i.Expanded(math.Float64frombits(%#x)).Contains(i.Lo) == false", w[0], w[1], w[2])})
 			}
 		}
 	}
@@ -311,6 +311,9 @@ func runC19s1(c *vkit.Collector, rng *vkit.Rng, budget int) {
 		tProbe := map[int]bool{rng.Intn(len(probes)): true, rng.Intn(len(probes)): true, rng.Intn(len(probes)): true}
 		for pi, p := range probes {
 			ma, mb := s1Mem(a, p), s1Mem(b, p)
+			if (bEmpty && s1Mem(u, p) != ma) || (aEmpty && s1Mem(u, p) != mb) {
+				c.Violate("s1.Union.empty-operand", "union with the empty interval is not the other operand", rep(p))
+			}
 			if (ma || mb) && !s1Mem(u, p) {
 				c.Violate("s1.Union", "union misses a point of an operand", rep(p))
 			}
